@@ -8,7 +8,8 @@
     reachable from the empty tree by SOME interleaving of the calls [ops]
     (every schedule, no bound on the number of threads or steps). *)
 From Gnmi Require Import Base.Prelude CTree.CTreeModel CTree.CTreeCheck CTree.CTreeConc
-  CTree.CTreeConcProofs CTree.CTreeConcLin CTree.CTreeConcAbs CTree.LinCheck CTree.C10Check.
+  CTree.CTreeConcProofs CTree.CTreeConcLin CTree.CTreeConcAbs CTree.CTreeConcDel CTree.CTreeConcGet CTree.LinCheck
+  CTree.C10Check.
 
 (** lock coupling: a tree operation that holds any lock holds the root lock *)
 Theorem C10_lock_coupling :
@@ -325,22 +326,219 @@ Theorem C10_delete_excludes_writers :
 Proof. exact delete_excludes_writers. Qed.
 Print Assumptions C10_delete_excludes_writers.
 
-(* What is still NOT proved over the LTS:
-   - linearizable_point_ops WITH Delete: Delete's critical sections (one per
-     visited node, all under the root write lock, C10_delete_atomic) are shown
-     to only remove (C10_abstraction_step, ae_remove), to be the only abstract
-     changes while the Delete is inside the tree (C10_delete_excludes_writers)
-     and to act on locked nodes
-     (C10_no_data_race); that their net effect and the returned paths are the
-     specification's [fkeep]/[fselect] -- a refinement of the frame machine
-     PLVisit/PLNext/PLBack to CTreeModel.del_node -- is not proved.
-     Full statement:
-       forall ops s log ev, forallb patched_op ops = true -> reach_lin' ops s log ev ->
-         exists m, spec_run' (fun _ => None) (ev_ops ops ev) m /\ forall q, m q = absf (hp s) q
-     with spec_run' extended by  Delete q / XPaths (map fst (select q m)) / keep q m.
-   - quiescent_serializable with Delete (follows from the above).
-   - query_stability in the presence of Delete / handle Update (both halves are
-     proved for programs without them: C10_query_stability_partial = soundness,
-     C10_query_stability_complete = completeness).
-   These clauses are judged on every implementation history by the verified
-   checker (C10_window_check_linearizable, C10Check.query_ok). *)
+(** Delete refines the flat specification's delete (programs of Add / GetLeafValue /
+    Query / Walk / Leaf.Value / Delete; the code as of 3480f62): from the step with which
+    thread [d] takes the root lock (state [s1]) to its last critical section (state [s2]),
+    with any steps of any threads in between, a Delete(q) removes exactly the stored paths
+    [q] selects, leaves every other stored path with its value, and returns exactly the
+    removed paths *)
+Theorem C10_delete_refines_spec :
+  forall ops s1 d t1 q s1' s2 t2 del ls s2',
+    forallb no_hupd_op ops = true -> reach ops s1 ->
+    nth_error (thr s1) d = Some t1 -> tpc t1 = PLDelAcq q -> step s1 d = Some s1' ->
+    steps s1' s2 ->
+    nth_error (thr s2) d = Some t2 -> tpc t2 = PLRet del ls [] -> step s2 d = Some s2' ->
+    (forall p, absf (hp s2') p = if qmatch q p then None else absf (hp s1) p) /\
+    (forall p, In p ls <-> (absf (hp s1) p <> None /\ qmatch q p = true)) /\
+    tpc_of s2' d = Some (PUnwind (UDone (XPaths ls))).
+Proof. exact delete_refines_spec. Qed.
+Print Assumptions C10_delete_refines_spec.
+
+
+(** linearizability of Add and Delete by forward simulation to the flat prefix-free map
+    (programs without Leaf.Update through a handle).  [reach_lin_D ops s log ev]: a run to
+    [s] with the sequence [ev] of linearization events (thread, answer) -- Add's as in
+    C10_linearizable_add_get, Delete's at its last critical section.
+    (1) sequential witness: the events with the calls' answers are a run of the
+    specification ([spec_step_D]: Add as before, Delete(q) removes exactly what q selects
+    and returns it) from the empty map, ending in a map related to the state by [sim_rel];
+    (2) when no Delete holds the root lock that map is the content of the heap;
+    (3) every returned Add / Delete is in the sequence with its answer; (4) at most once;
+    (5) real-time order; (6) every run has such an instrumented version; (7) every reachable
+    branch node has a stored leaf below it whenever no Delete is at work (pruning) *)
+Theorem C10_linearizable_add_delete :
+  (forall ops s log ev,
+    forallb no_hupd_op ops = true -> reach_lin_D ops s log ev ->
+    exists m, spec_run_D (fun _ => None) (ev_ops ops ev) m /\ sim_rel m s) /\
+  (forall ops s log ev,
+    forallb no_hupd_op ops = true -> reach_lin_D ops s log ev -> nobody_in s ->
+    exists m, spec_run_D (fun _ => None) (ev_ops ops ev) m /\ forall q, m q = absf (hp s) q) /\
+  (forall ops s log ev,
+    reach_lin_D ops s log ev -> forall i t r,
+    nth_error (thr s) i = Some t -> point_op_D (top t) = true ->
+    CTreeConcAbs.res_of (tpc t) = Some r -> In (i, r) ev) /\
+  (forall ops s log ev,
+    forallb no_hupd_op ops = true -> reach_lin_D ops s log ev -> NoDup (map fst ev)) /\
+  (forall ops s1 log1 ev1 s2 log2 ev2 a ta ra b tb o rb,
+    forallb no_hupd_op ops = true ->
+    reach_lin_D ops s1 log1 ev1 -> run_lin_D ops (s1, log1, ev1) (s2, log2, ev2) ->
+    nth_error (thr s1) a = Some ta -> point_op_D (top ta) = true -> tpc ta = PDone ra ->
+    nth_error (thr s1) b = Some tb -> tpc tb = PStart o ->
+    In (b, rb) ev2 ->
+    exists l1 l2 l3, ev2 = l1 ++ (a, ra) :: l2 ++ (b, rb) :: l3) /\
+  (forall ops s, reach ops s -> exists log ev, reach_lin_D ops s log ev) /\
+  (forall ops s log ev m,
+    forallb no_hupd_op ops = true -> reach_lin_D ops s log ev -> nobody_in s -> sim_rel m s ->
+    forall p n cs, resolve (hp s) 0 p = Some n -> get_cont (hp s) n = CBranch cs ->
+                   exists sfx, sfx <> [] /\ absf (hp s) (p ++ sfx) <> None).
+Proof.
+  split. { exact lin_simulation_D. }
+  split. { exact lin_simulation_D_content. }
+  split. { exact lin_complete_D. }
+  split. { exact lin_unique_D. }
+  split. { exact lin_real_time_D. }
+  split. { exact reach_reach_lin_D. }
+  intros ops s log ev m Q R NB [[_ [_ [_ BF]]]|[d [td [qd [Ed [ID _]]]]]] p n cs Rp En.
+  - exact (BF p n cs Rp En eq_refl).
+  - rewrite (NB _ _ Ed) in ID. discriminate.
+Qed.
+Print Assumptions C10_linearizable_add_delete.
+
+
+(** quiescent serializability with Delete: when every call of a run of Add / GetLeafValue /
+    Query / Walk / Leaf.Value / Delete calls has returned, the stored content is what the
+    flat specification computes by executing the Add and Delete calls one after the other in
+    the order of their linearization events, each with the answer it actually returned;
+    every Add / Delete is in that sequence, exactly once (real-time order: (5) above);
+    the reading calls change nothing and can be put anywhere *)
+Theorem C10_quiescent_serializable :
+  forall ops s log ev,
+    forallb no_hupd_op ops = true -> reach_lin_D ops s log ev ->
+    (forall i t, nth_error (thr s) i = Some t -> is_done (tpc t) = true) ->
+    exists m, spec_run_D (fun _ => None) (ev_ops ops ev) m /\ (forall q, m q = absf (hp s) q) /\
+              NoDup (map fst ev) /\
+              (forall i t r, nth_error (thr s) i = Some t -> point_op_D (top t) = true ->
+                             tpc t = PDone r -> In (i, r) ev).
+Proof. exact quiescent_serializable_D. Qed.
+Print Assumptions C10_quiescent_serializable.
+
+
+(** Query / Walk under concurrency, also in programs with Delete (everything except
+    Leaf.Update through a handle): (1) what is reported is stored, with that value, at the
+    moment of the report -- so every reported leaf was present at some moment during the
+    call; (2) a leaf that the query selects and that is stored in every state from the
+    invocation to the return is reported; (3) nothing is reported twice (all programs with
+    the current Delete).  (2) + (3): a matching leaf present during the whole call is
+    visited exactly once. *)
+Theorem C10_query_stability_with_delete :
+  (forall ops s i t t0 pre q acc fr v,
+    forallb no_hupd_op ops = true -> reach ops s ->
+    nth_error (thr s) i = Some t -> tpc t = PQRead t0 pre q acc fr ->
+    query_visits (get_cont (hp s) t0) q = Some v ->
+    absf (hp s) pre = Some v /\
+    (exists s', step s i = Some s' /\
+       exists t', nth_error (thr s') i = Some t' /\ tpc t' = PQVisit pre v acc ([] :: fr))) /\
+  (forall ops s1 s2 i t1 t2 q acc pth,
+    forallb no_hupd_op ops = true -> reach ops s1 ->
+    steps_all (fun s => absf (hp s) pth <> None) s1 s2 ->
+    nth_error (thr s1) i = Some t1 -> tpc t1 = PStart (CQuery q None) ->
+    nth_error (thr s2) i = Some t2 -> tpc t2 = PDone (XLeaves acc) ->
+    qmatch q pth = true -> In pth (map fst acc)) /\
+  (forall ops s i t acc,
+    forallb patched_op ops = true -> reach ops s ->
+    nth_error (thr s) i = Some t -> tpc t = PDone (XLeaves acc) -> NoDup (map fst acc)).
+Proof.
+  split. { exact query_reports_present_D. }
+  split. { exact query_reports_all_D. }
+  exact query_reports_once.
+Qed.
+Print Assumptions C10_query_stability_with_delete.
+
+
+(** linearizability of ALL point operations -- Add, GetLeafValue, Delete -- in programs
+    without Leaf.Update through a handle.  GetLeafValue is Get + Value, two critical
+    sections: it is linearized at a miss of its walk, or at its Value read, or -- when a
+    Delete unlinks the node between the two -- just before that Delete's event ("helping":
+    [helpers]).  [reach_lin_G ops s log ev]: a run to [s] with the event sequence [ev].
+    (1) the events with the calls' answers are a run of the flat specification
+    ([spec_step_G]: Add, Delete as before, GetLeafValue(p) answers the stored value) from
+    the empty map, ending in the content of the heap whenever no Delete holds the root lock;
+    every call that has its answer is in the sequence with that answer, exactly once;
+    (2) real-time order; (3) every run has such an instrumented version *)
+Theorem C10_linearizable_point_ops :
+  (forall ops s log ev,
+    forallb no_hupd_op ops = true -> reach_lin_G ops s log ev ->
+    (exists m, spec_run_G (fun _ => None) (ev_ops ops ev) m /\
+               (nobody_in s -> forall q, m q = absf (hp s) q)) /\
+    NoDup (map fst ev) /\
+    (forall i t r, nth_error (thr s) i = Some t -> point_op_G (top t) = true ->
+                   CTreeConcAbs.res_of (tpc t) = Some r -> In (i, r) ev)) /\
+  (forall ops s1 log1 ev1 s2 log2 ev2 a ta ra b tb o rb,
+    forallb no_hupd_op ops = true ->
+    reach_lin_G ops s1 log1 ev1 -> run_lin_G ops (s1, log1, ev1) (s2, log2, ev2) ->
+    nth_error (thr s1) a = Some ta -> point_op_G (top ta) = true -> tpc ta = PDone ra ->
+    nth_error (thr s1) b = Some tb -> tpc tb = PStart o ->
+    In (b, rb) ev2 ->
+    exists l1 l2 l3, ev2 = l1 ++ (a, ra) :: l2 ++ (b, rb) :: l3) /\
+  (forall ops s, reach ops s -> exists log ev, reach_lin_G ops s log ev).
+Proof.
+  split. { exact linearizable_point_ops. }
+  split. { exact lin_real_time_G. }
+  exact reach_reach_lin_G.
+Qed.
+Print Assumptions C10_linearizable_point_ops.
+
+(** non-vacuity of the helping case: GetLeafValue(a/b) gets its node, the whole Delete of
+    a/[*] runs, only then the Value read happens -- it answers 1, and its event stands
+    before the Delete's in the witness *)
+Theorem C10_helping_example :
+  (let c := run_G (init_state del_ex_ops, [], []) help_ex_sched in
+   (map tpc (thr (fst (fst c))), snd c)
+   = ([PDone (XAdd true); PDone (XAdd true); PDone (XPaths [["a"; "b"]; ["a"; "c"]]%string);
+       PDone (XAdd true); PDone (XVal (Some 1%Z))],
+      [(0%nat, XAdd true); (1%nat, XAdd true); (4%nat, XVal (Some 1%Z));
+       (2%nat, XPaths [["a"; "b"]; ["a"; "c"]]%string); (3%nat, XAdd true)])) /\
+  (let c := run_G (init_state del_ex_ops, [], []) help_ex_sched in
+   reach_lin_G del_ex_ops (fst (fst c)) (snd (fst c)) (snd c)).
+Proof. split; [exact help_example|exact help_example_reach]. Qed.
+Print Assumptions C10_helping_example.
+
+
+(** non-vacuity: a run in which a Delete with a glob is interleaved with a blocked Add and
+    a GetLeafValue that reads its leaf after it was unlinked; in the middle of the Delete the
+    content is neither the old nor the new one; the sequential witness of the whole run *)
+Theorem C10_delete_examples :
+  (forallb no_hupd_op del_ex_ops = true /\
+   reach del_ex_ops (run_sched (init_state del_ex_ops) del_ex_sched2)) /\
+  (let s := run_sched (init_state del_ex_ops) del_ex_sched1 in
+   (map (fun t => in_delete (tpc t)) (thr s), map (absf (hp s)) [["a"; "b"]; ["a"; "c"]; ["d"]]%string)
+   = ([false; false; true; false; false], [None; Some 2%Z; None])) /\
+  (let s := run_sched (init_state del_ex_ops) del_ex_sched2 in
+   (map tpc (thr s), map (absf (hp s)) [["a"; "b"]; ["a"; "c"]; ["d"]; []]%string)
+   = ([PDone (XAdd true); PDone (XAdd true); PDone (XPaths [["a"; "b"]; ["a"; "c"]]%string);
+       PDone (XAdd true); PDone (XVal (Some 1%Z))],
+      [None; None; Some 3%Z; None])).
+Proof.
+  split. { exact delete_example_hyps. }
+  split. { exact delete_example_mid. }
+  exact delete_example_end.
+Qed.
+
+(** ... and a Query parked in its visitor that keeps a Delete waiting at the root lock *)
+Theorem C10_query_delete_example :
+  (let s := run_sched (init_state qd_ex_ops) qd_ex_sched1 in
+   map (fun t => (tpc t, held t)) (thr s)
+   = [(PDone (XAdd true), []); (PDone (XAdd true), []);
+      (PQVisit ["a"; "b"]%string 1 [] [[]; [(3%nat, ["a"; "c"]%string, [])]; []], [(2%nat, MR); (1%nat, MR); (0%nat, MR)]);
+      (PLDelAcq ["a"; "b"]%string, [])]) /\
+  (let s := run_sched (init_state qd_ex_ops) qd_ex_sched2 in
+   (map tpc (thr s), map (absf (hp s)) [["a"; "b"]; ["a"; "c"]]%string)
+   = ([PDone (XAdd true); PDone (XAdd true);
+       PDone (XLeaves [(["a"; "b"]%string, 1%Z); (["a"; "c"]%string, 2%Z)]); PDone (XPaths [["a"; "b"]%string])],
+      [None; Some 2%Z])).
+Proof. exact query_delete_example. Qed.
+Print Assumptions C10_query_delete_example.
+Print Assumptions C10_delete_examples.
+
+(* What is still NOT proved over the LTS (round 5v):
+   - programs with Leaf.Update through a handle ([CHUpdate n v] acts on an arbitrary node
+     id; the flat specification has no node identities, and the LTS has no call
+     "GetLeaf(p).Update(v)" that acquires the handle).  For them: C10_no_data_race,
+     C10_delete_atomic, C10_abstraction_step (ae_hupd), reported-once.
+   - DeleteConditional with a condition that refuses, WalkDeleted (modelled as Delete with
+     the always-true condition).
+   Everything else of the property text is a theorem for programs of Add / GetLeafValue /
+   Query / Walk / Leaf.Value / Delete: C10_delete_refines_spec, C10_linearizable_point_ops,
+   C10_quiescent_serializable, C10_query_stability_with_delete.  The clauses above are
+   still judged on every implementation history by the verified checker
+   (C10_window_check_linearizable, C10Check.query_ok). *)
